@@ -114,10 +114,10 @@ def rule_c(model, rep):
     flag = model.func(UH, "HasRounds._calc_needs_update")
     ct = ast.unparse(clip)
     ft = ast.unparse(flag)
-    rep.check("if rounds < mnd:" in ct and "if mxd and rounds > mxd:" in ct, R, site(UH, "HasRounds._clip_to_desired_rounds"), "rounds < mnd / rounds > mxd",
+    rep.check("if rounds < mnd:" in ct and "if mxd is not None and rounds > mxd:" in ct, R, site(UH, "HasRounds._clip_to_desired_rounds"), "rounds < mnd / rounds > mxd",
               "clipping moves a value inside [min_desired, max_desired] with strict comparisons")
     rep.check("if min_desired_rounds and self.rounds < min_desired_rounds:\n        return True" in ft and
-              "if max_desired_rounds and self.rounds > max_desired_rounds:\n        return True" in ft, R, site(UH, "HasRounds._calc_needs_update"),
+              "if max_desired_rounds is not None and self.rounds > max_desired_rounds:\n        return True" in ft, R, site(UH, "HasRounds._calc_needs_update"),
               "rounds < min / rounds > max -> True", "a hash is flagged exactly when its cost lies strictly outside the same window",
               witness="a cost equal to the configured limit is flagged (fresh hashes at min_rounds need updating at once) or a cost outside is not")
     rep.check("min_desired_rounds = self.min_desired_rounds" in ft and "max_desired_rounds = self.max_desired_rounds" in ft, R, site(UH, "HasRounds._calc_needs_update"),
